@@ -41,23 +41,26 @@ Proof.
 Qed.
 
 (* ---------- usage-error classes ---------- *)
+(* Gen fact (source as repaired by af4580b): _load_dry_config_file guards the loaded document with `or {}` *)
+Lemma dry_guard_ok : dry_config_null_guard = true.
+Proof. reflexivity. Qed.
+
 Theorem usage_exit_two q cmd c :
-  q_group_missing_config_ignored q = false -> q_dry_empty_config_crashes q = false ->
+  q_group_missing_config_ignored q = false ->
   usage_outcome q cmd c = spec_outcome c.
 Proof.
-  intros H1 H2. destruct c; cbn [usage_outcome spec_outcome]; rewrite ?H1, ?H2; cbn [andb];
-    try reflexivity. destruct (String.eqb cmd "dry"); reflexivity.
+  intros H1. destruct c; cbn [usage_outcome spec_outcome]; rewrite ?H1, ?dry_guard_ok; cbn [negb];
+    rewrite ?andb_false_r; cbn [andb]; try reflexivity. destruct (String.eqb cmd "dry"); reflexivity.
 Qed.
 
-(* with the flags as found in the code: every class but the two listed ones *)
+(* with the flags as found in the code: every class but the listed one *)
 Theorem usage_exit_two_partial q cmd c :
-  c <> UGroupMissingConfig -> (c = UEmptyConfig -> cmd <> "dry") ->
-  usage_outcome q cmd c = spec_outcome c.
+  c <> UGroupMissingConfig -> usage_outcome q cmd c = spec_outcome c.
 Proof.
-  intros Hg He. destruct c; cbn [usage_outcome spec_outcome]; try reflexivity.
+  intros Hg. destruct c; cbn [usage_outcome spec_outcome]; rewrite ?dry_guard_ok; cbn [negb];
+    rewrite ?andb_false_r; cbn [andb]; try reflexivity.
   - destruct (String.eqb cmd "dry"); reflexivity.
   - contradiction.
-  - destruct (String.eqb_spec cmd "dry") as [->|]; [now specialize (He eq_refl)|now rewrite andb_false_r].
 Qed.
 
 (* ---------- violations built for syntax errors ---------- *)
@@ -68,27 +71,33 @@ Proof. reflexivity. Qed.
 (* what CPython's SyntaxError carries: positive line numbers, non-negative offsets, or nothing *)
 Definition lineno_ok (o : option Z) : Prop := match o with Some z => 0 <= z | None => True end.
 
+(* Gen fact (source as repaired by f9c24d2): every builder's default line is 1-based *)
+Lemma syntax_default_lines_ok : forallb (fun e => match snd e with (dl, _, _, _) => (1 <=? dl)%Z end) syntax_error_defaults = true.
+Proof. reflexivity. Qed.
+
 Theorem syntax_violation_positions q b rule file ln off msg :
-  q_syntax_line_zero q = false -> lineno_ok ln -> lineno_ok off ->
+  lineno_ok ln -> lineno_ok off ->
   pos_ok (realize q (VSyntax b rule file ln off msg)).
 Proof.
-  intros Hq Hl Ho. unfold realize. rewrite Hq.
-  assert (L : 1 <= pyor ln 1).
-  { unfold pyor. destruct ln as [z|]; [|lia]. cbn in Hl. destruct (Z.eqb_spec z 0); lia. }
+  intros Hl Ho. unfold realize.
+  assert (L : forall k, 1 <= k -> 1 <= pyor ln k).
+  { intros k Hk. unfold pyor. destruct ln as [z|]; [|exact Hk]. cbn in Hl. destruct (Z.eqb_spec z 0); lia. }
   destruct (assoc b syntax_error_defaults) as [[[[dl dc] prefix] fixed]|] eqn:E.
   - apply assoc_In in E. pose proof syntax_defaults_ok as T. rewrite forallb_forall in T. specialize (T _ E).
-    cbn [snd] in T. apply Z.leb_le in T. split; cbn [v_line v_col]; [exact L|].
-    unfold pyor. destruct off as [z|]; [|exact T]. cbn in Ho. destruct (Z.eqb_spec z 0); lia.
-  - split; cbn [v_line v_col]; [exact L|]. unfold pyor. destruct off as [z|]; [|lia]. cbn in Ho. destruct (Z.eqb_spec z 0); lia.
+    pose proof syntax_default_lines_ok as T1. rewrite forallb_forall in T1. specialize (T1 _ E).
+    cbn [snd] in T, T1. apply Z.leb_le in T, T1. split; cbn [v_line v_col].
+    + apply L. destruct (q_syntax_line_zero q); lia.
+    + unfold pyor. destruct off as [z|]; [|exact T]. cbn in Ho. destruct (Z.eqb_spec z 0); lia.
+  - split; cbn [v_line v_col]; [apply L; lia|]. unfold pyor. destruct off as [z|]; [|lia]. cbn in Ho. destruct (Z.eqb_spec z 0); lia.
 Qed.
 
 Definition src_ok (s : vsrc) : Prop :=
   match s with VPlain v => pos_ok v | VSyntax _ _ _ ln off _ => lineno_ok ln /\ lineno_ok off end.
 
 Theorem sarif_wellformed_run q ver srcs :
-  q_syntax_line_zero q = false -> Forall src_ok srcs -> sarif_wf (render_sarif q ver (map (realize q) srcs)) = true.
+  Forall src_ok srcs -> sarif_wf (render_sarif q ver (map (realize q) srcs)) = true.
 Proof.
-  intros Hq H. apply sarif_wellformed. apply Forall_map. eapply Forall_impl; [|exact H].
+  intros H. apply sarif_wellformed. apply Forall_map. eapply Forall_impl; [|exact H].
   intros [v|b r f ln off m]; cbn [src_ok]; [intros Hv; exact Hv|intros [Hl Ho]; now apply syntax_violation_positions].
 Qed.
 
@@ -102,29 +111,29 @@ Proof. repeat split. Qed.
 
 (* ---------- the three renderings describe the same list ---------- *)
 Theorem renderings_agree q ver vs :
-  q_sarif_unsanitized q = false -> q_text_omit_zero q = false -> q_text_raw_newline q = false ->
+  q_text_omit_zero q = false -> q_text_raw_newline q = false ->
   forallb (fun v => rule_ok (v_rule v)) vs = true ->
   decode_json (render_json vs) = Some (map san_core vs, Z.of_nat (List.length (map san_core vs)))
   /\ decode_sarif (render_sarif q ver vs) = Some (map san_core vs)
   /\ parse_text q (text_output q vs) = Some (map san_core vs).
 Proof.
-  intros H1 H2 H3 Hr. repeat split.
+  intros H2 H3 Hr. repeat split.
   - rewrite json_roundtrip. now rewrite map_length.
-  - now apply sarif_roundtrip_exact.
+  - apply sarif_roundtrip_exact.
   - now apply text_roundtrip_ideal.
 Qed.
 
-(* the layouts as found in the code: the same statement on inputs free of undecodable bytes whose text layout is decodable *)
+(* the text layout as found in the code: the same statement on the inputs whose text layout is decodable *)
 Theorem renderings_agree_actual_partial q ver vs :
   q_text_omit_zero q = true -> q_text_raw_newline q = true ->
-  Forall viol_clean vs -> forallb (text_ok q) vs = true ->
+  forallb (text_ok q) vs = true ->
   decode_json (render_json vs) = Some (map san_core vs, Z.of_nat (List.length (map san_core vs)))
   /\ decode_sarif (render_sarif q ver vs) = Some (map san_core vs)
   /\ parse_text q (text_output q vs) = Some (map san_core vs).
 Proof.
-  intros H2 H3 Hc Ht. repeat split.
+  intros H2 H3 Ht. repeat split.
   - rewrite json_roundtrip. now rewrite map_length.
-  - now apply sarif_roundtrip_clean_partial.
+  - apply sarif_roundtrip_exact.
   - now apply text_roundtrip_actual_partial.
 Qed.
 
